@@ -103,7 +103,47 @@ def run(check, mirror, tier):
 
     jobs.append(lambda c: decide(c, crate, "no_panic/get_result", setup_result, lambda ex, o, i: [], replay_result, rb, models=MODELS, unwind=8,
                                  describe=desc, budget_s=600, min_paths=2, timeout_ms=20000, known_predicates=KNOWN_PRED))
+    # --- classification of item definitions (unwraps on the optional typeRef) ---------------------------------------------------------
+    def setup_idt(ex, st):
+        has_ref = z3.Bool(ex.fresh_name("has_type_ref"))
+        known = z3.Bool(ex.fresh_name("type_ref_is_builtin"))
+        ncomp = ex.fresh_int(st, "usize", "n_components", constrain=False)
+        ex.assume(st, z3.And(ncomp.e >= 0, ncomp.e <= 1))
+        coll = z3.Bool(ex.fresh_name("is_collection"))
+        tref = En("Option", z3.If(has_ref, z3.IntVal(1), z3.IntVal(0)), {"None": (), "Some": (StrV(None, id=z3.IntVal(7)),)})
+        item = Opaque("ItemDefinition", info=dict(type_ref=Ref(ex.new_cell(st, tref, "tref")), comps=Ref(ex.new_cell(st, VecV(ncomp.e, (Opaque("ItemDefinition"),), "T"), "comps")), coll=coll))
+
+        def m_field(name):
+            def m(ex, st, callee, args, dest_ty):
+                d = deref(ex, st, args[0])
+                v = d.info[name]
+                yield st, (mk_bool(v) if name == "coll" else v)
+            return m
+
+        def m_to_feel_type(ex, st, callee, args, dest_ty):
+            yield st, En("Option", z3.If(known, z3.IntVal(1), z3.IntVal(0)), {"None": (), "Some": (Opaque("FeelType"),)})
+        ex.models = [(re.compile(r"^ItemDefinition::type_ref$|^<ItemDefinition as Expression>::type_ref$"), m_field("type_ref")), (re.compile(r"^ItemDefinition::item_components$"), m_field("comps")),
+                     (re.compile(r"^ItemDefinition::is_collection$"), m_field("coll")), (re.compile(r"^type_ref_to_feel_type$"), m_to_feel_type),
+                     (re.compile(r"^<ItemDefinition as NamedElement>::name$|^ItemDefinition::name$"), lambda ex, st, c, a, d: iter([(st, StrV("item"))])),
+                     (re.compile(r"(^|::)err_invalid_item_definition_type$"), lambda ex, st, c, a, d: iter([(st, Opaque("Error"))]))] + ex.models
+        return "item_definition_type", [Ref(ex.new_cell(st, item))], dict(has_type_ref=has_ref, type_ref_is_builtin=known, n_components=ncomp.e, is_collection=coll)
+
+    jobs.append(lambda c: decide(c, crate, "no_panic/item_definition_type", setup_idt, lambda ex, o, i: [], replay_item_definition, rb, models=MODELS, unwind=6,
+                                 describe=desc, budget_s=600, min_paths=3, timeout_ms=20000, known_predicates=KNOWN_PRED))
     run_parallel(check, jobs)
+
+
+def replay_item_definition(i, rb):
+    tref = "<typeRef>%s</typeRef>" % ("number" if i["type_ref_is_builtin"] else "tOther") if i["has_type_ref"] else ""
+    comps = '<itemComponent name="c" id="_c"><typeRef>number</typeRef></itemComponent>' * i["n_components"]
+    xml = ('<?xml version="1.0" encoding="UTF-8"?><definitions namespace="https://verif" name="m" id="_m" xmlns="https://www.omg.org/spec/DMN/20191111/MODEL/">'
+           '<itemDefinition name="tItem" id="_t" isCollection="%s">%s%s</itemDefinition><itemDefinition name="tOther" id="_o"><typeRef>string</typeRef></itemDefinition>'
+           '<inputData name="x" id="_x"><variable name="x" typeRef="tItem"/></inputData>'
+           '<decision name="d" id="_d"><variable name="d"/><informationRequirement><requiredInput href="#_x"/></informationRequirement>'
+           '<literalExpression><text>x</text></literalExpression></decision></definitions>') % ("true" if i["is_collection"] else "false", tref, comps)
+    _, out, _ = replay_call(rb, ["model_eval", xml, "d", "{x: 1}"])
+    return out.startswith("PANIC"), "item definition (typeRef %s, %d components, collection %s) -> %s" % (
+        ("builtin" if i["type_ref_is_builtin"] else "reference") if i["has_type_ref"] else "absent", i["n_components"], i["is_collection"], out[:140])
 
 
 # ----------------------------------------------------------------------------- native replay through generated DMN XML
